@@ -18,7 +18,7 @@ from harness.core import Check
 from harness.par import pmap
 
 CONC = {"p": ["alpha", "beta", "gamma", "delta", "epsilon"], "s": ["done.", "ends.", "stop.", "here.", "fine."], "a": ["`c d`", "[l m](u)", "`e f`", "[x y](z)", "`g h`"],
-        "h": ["-", "1.", "#", ">", "+"], "t": ["{% t %}", "<!-- c -->", "{{ v }}", "{# n #}", "{% /t %}"]}
+        "h": ["-", "1.", "#", ">", "+"], "e": ["1\\.", "2\\)", "10\\.", "3\\.", "7\\)"], "t": ["{% t %}", "<!-- c -->", "{{ v }}", "{# n #}", "{% /t %}"]}
 CONTS = {"top": ("", ""), "bullet": ("- ", "  "), "quote": ("> ", "> ")}
 OPTS = [dict(width=88, semantic=False), dict(width=20, semantic=False), dict(width=20, semantic=True), dict(width=0, semantic=False), dict(width=12, semantic=True)]
 
@@ -56,11 +56,11 @@ def _hist(job):
 def run(tier: str) -> int:
     chk = Check("C03", tier, "model_checking")
     n = 4        # 5 words give 5.8 M layouts; thorough instead replays every admissible layout of <= 4 words (quick: a quarter)
-    chk.rule = (f"cases = every admissible layout of spec/Layout.tla: paragraphs of 2..{n} words over 5 word kinds x 5 separators per gap x 3 "
-                f"containers, x {len(OPTS)} option sets (quick: a seeded quarter of the layouts per paragraph); histories: canonical layout x every "
+    chk.rule = (f"cases = every admissible layout of spec/Layout.tla: paragraphs of 2..{n} words over 6 word kinds x 5 separators per gap x 3 "
+                f"containers, x {len(OPTS)} option sets (quick: a seeded seventh of the layouts per paragraph); histories: canonical layout x every "
                 "ordered pair of option sets; non-trivial = layout with at least one non-single-space gap / history with o1 != o2")
     chk.assumptions = ["word kinds are represented by fixed tokens; 'block-looking' words are never placed at a line start by an admissible layout"]
-    consts = dict(MaxWords=n, WordKinds={"p", "s", "a", "h", "t"}, Seps={"s1", "s2", "nl", "nli", "nll"}, Containers=set(CONTS))
+    consts = dict(MaxWords=n, WordKinds={"p", "s", "a", "h", "t", "e"}, Seps={"s1", "s2", "nl", "nli", "nll"}, Containers=set(CONTS))
     res = tlc.run_tlc("Layout", tlc.cfg_text(constants=dict(consts, DoDump=True), invariants=["CanonStable", "OneSegment", "Dump"], view="view"),
                       coverage=True, timeout=3000)
     chk.add_tlc(res)
@@ -73,7 +73,7 @@ def run(tier: str) -> int:
     for (w, c), ss in groups.items():
         canon = tuple("s1" for _ in range(len(w) - 1))
         if tier == "quick":
-            ss = [s for k, s in enumerate(ss) if (k + chk.seed + len(w)) % 4 == 0 or s == canon]
+            ss = [s for k, s in enumerate(ss) if (k + chk.seed + len(w)) % 7 == 0 or s == canon]
         for oi, o in enumerate(OPTS):
             for s in ss:
                 jobs.append((conc(w, s[:len(w) - 1], c, inner=len(s) == len(w)), o))
@@ -150,6 +150,12 @@ def finding_for(m) -> str | None:
     failure is entirely D41 / D12."""
     import re
     from flowmark import reformat_text
+    if m["kind"] == "layout":
+        # D33: tag paragraph + escaped numeral directly after a line break of the layout
+        lay = m["layout"]
+        if "t" in m["words"] and any(lay[g] in ("nl", "nli", "nll") and m["words"][g + 1] == "e" for g in range(len(m["words"]) - 1)):
+            return "D33"
+        return None
     if m["kind"] != "history":
         return None
     first, cp = CONTS[m["container"]]
@@ -163,8 +169,10 @@ def finding_for(m) -> str | None:
     bodies = [l[len(first):] if j == 0 and l.startswith(first) else l[len(cp):] if l.startswith(cp) else l for j, l in enumerate(lines)]
     tag = re.compile(r"(\{%.*?%\}|\{#.*?#\}|\{\{.*?\}\}|<!--.*?-->)")
     tag_break = any(tag.match(b) for b in bodies[1:]) or any(tag.search(b) and tag.search(b).end() == len(b) for b in bodies[:-1])
-    unesc = [re.sub(r"^\\([-+*>#])", lambda x: x.group(1), re.sub(r"^(\d+)\\([.)])", lambda x: x.group(1) + x.group(2), b)) for b in bodies]
-    had_escape = unesc != bodies and "\\" not in m["src"]
+    # only the escapes of - + * > # are kept by later passes on the unchanged tree (D41); an escaped numeral (1\.) that no longer starts
+    # a line is un-escaped again by render_literal, so it is never neutralised here
+    unesc = [re.sub(r"^\\([-+*>#])", lambda x: x.group(1), b) for b in bodies]
+    had_escape = unesc != bodies and not re.search(r"\\[-+*>#]", m["src"])
     rejoined = first + " ".join(unesc if had_escape else bodies) + "\n"
     if reformat_text(rejoined, cleanups=False, **m["o2"]) != direct:
         return None
@@ -172,6 +180,8 @@ def finding_for(m) -> str | None:
         return "D41"
     if tag_break and "t" in m["words"]:
         return "D12"
+    if "t" in m["words"] and "e" in m["words"] and any(re.match(r"\d+\\?[.)](\s|$)", b) for b in bodies[1:]):
+        return "D33"       # the first pass put the (escaped) numeral at a line start of a tag paragraph: block-content heuristic keeps that break
     return "D41" if had_escape else None
 
 
